@@ -76,6 +76,7 @@ static void role_payload(const Case &c, std::vector<Bytes> &recent) {
     // consumed nothing of the coming frame); the error comes back unchanged and the frames are still delivered in order
     for (int code : {-EAGAIN, -ENODATA, -EIO}) {
         ep::ScriptSource psrc(c.kinds & 1, stream); ep::ScriptSink psnk(c.kinds & 2);
+        psrc.scribble = (code != -EAGAIN);
         size_t at = 0;
         for (auto &q : recent) { psrc.transient.push_back({at, code}); Bytes e; int r; if (!lib_encode(c, q, e, r)) return; at += e.size(); }
         RFC1055Context pctx; ctx_init(pctx, c.sof);
@@ -160,6 +161,7 @@ static void role_garbage(const Case &c) {
     stream.push_back(END);
     for (auto &p : ps) { Bytes e = ref_encode(p, c.sof); stream.insert(stream.end(), e.begin(), e.end()); }
     ep::ScriptSource src(c.kinds & 1, stream); ep::ScriptSink snk(c.kinds & 2);
+    src.scribble = (c.s.size() & 1);   // the end-of-stream condition may leave END octets in the caller's location
     RFC1055Context ctx; ctx_init(ctx, c.sof);
     std::vector<Bytes> frames;
     for (size_t call = 0; call < 3 * stream.size() + 6; call++) {
@@ -207,7 +209,7 @@ static void role_errors(const Case &c) {
     Bytes enc = ref_encode(p, c.sof);
     for (size_t j = 0; j < enc.size(); j++) {
         ep::ScriptSource src(c.kinds & 1, enc); ep::ScriptSink snk(c.kinds & 2);
-        src.err_at = (long)j; src.err = SRC_ERR;
+        src.err_at = (long)j; src.err = SRC_ERR; src.scribble = (j & 1);   // every other failing call leaves END octets in the caller's location
         RFC1055Context ctx; ctx_init(ctx, c.sof);
         int r = rfc1055_decode(&ctx, &src.src, &snk.snk);
         vp::count();
